@@ -654,19 +654,19 @@ PROPS = {
     },
     'C02': P(gen_c02, 'Proved in Coq for all byte strings (Props/C02.v): the model prefix parser equals the declarative six-kind grammar, the component list equals the specification wspec, every prefix/root/absoluteness query equals its definition over that decomposition, drive letters are upper-case ASCII, at most one prefix and only first. The same specification is evaluated on the implementation output of every explored case (oracle_c02: components from both ends, 13 queries, try_from, prefix length/verbatim flag).', NOTE_CORR),
     'C03': P(gen_c03, 'Double-ended coherence: interleaving theorem over the generic core parser (CoreSched.sched_spec) instantiated for Unix and for the Windows body; offsets/conservation checked by correspondence.', NOTE_CORR),
-    'C04': P(gen_pairs('c04'), 'Checked join: decision procedure (scan) modelled and tied to the code for byte, UTF-8 and typed families; theorems in Props/C04.v.', NOTE_CORR),
+    'C04': P(gen_pairs('c04'), 'Proved in Coq for all inputs (Props/C04.v): a checked push either fails and leaves the base byte-for-byte unchanged or succeeds with exactly the unchecked join, decided by the scan over the specification components of p (both encodings); the scan succeeds iff no prefix, no root, no normal name with a forbidden byte, and no .. outnumbering the normal names before it (Unix and Windows), otherwise it names the first offending component (Unix); containment: on success the result components begin with exactly the base components followed by p minus a leading . -- at Unix for every base, at Windows for every base without UNC/verbatim/device prefix (prefix-free not starting with two separators, or drive prefix X:). The remaining Windows bases are decided by oracle_c04 / oracle_c10 on every explored pair; base of exactly two separators = known finding D10.', NOTE_CORR),
     'C05': P(gen_pairs('c05'), 'Proved in Coq for all byte strings, both encodings (Props/C05.v): equality iff equal specification component sequences (Windows prefixes by parsed kind), the order is the lexicographic lift of the component order and is total (antisymmetric, transitive, Equal iff equal), the hasher feed is the derived hash of the parsed prefix kind followed by the bytes of every non-root component and their total length, hence equal paths feed identical data (C05_unix_eq_same_hash, C05_windows_eq_same_hash, C05_windows_hash_feed; the separator scan is proved once for any separator test and normalisation flag). All closed under the global context; the same statements are evaluated on the implementation output (recorded Hasher calls) of every explored pair by oracle_c05.', NOTE_CORR),
     'C06': P(gen_c06, 'Proved in Coq for all byte strings (Props/C06.v): the Gallina transcription of std::path (Components state machine, as_path trimming, parent, file_name, file_stem, extension, starts_with, ends_with, strip_prefix, eq, cmp, ancestors) and the typed-path model give the same answer: components from both ends, eq, cmp, has_root, file_name/stem/extension byte for byte, starts_with, ends_with; parent absent for both or for both a leading slice with all components but the last; ancestors chains pairwise equal paths; strip_prefix succeeds for both or neither with equal remainders as paths (bytes differ exactly in known class D8, refuted-witness lemma). The transcription is diffed against the real std::path on every explored case (pair.c06). Byte identity of the two parents is decided on explored cases only (C06_parent_bytes_partial).', NOTE_CORR),
     'C07': P(gen_c07, 'Proved in Coq (Props/C07.v): for EVERY history of push / pop / set_file_name / clear / extend / collect / join / with_file_name and every pair of component-equal start buffers, the typed-path buffer and the std::path::PathBuf transcription are component-equal after every step and every boolean result agrees (C07_history, by induction over the history); a non-empty push is the same byte function on both sides, also when std carries the extra trailing / left by an empty push (relation Rb, kept by push/clear/extend/collect). Every explored history is also run on the real std::path::PathBuf (pair.hist: booleans, component equality, byte equality after non-empty pushes). That pop/set_file_name keep the byte-level relation is decided on explored histories only (C07_bytes_partial).', NOTE_CORR),
-    'C08': P(gen_c08, 'Proved in Coq for ALL pairs of byte strings: the model of WindowsEncoding::push equals the documented rule table Spec.join_spec (written over the grammar specification only), every history of pushes is the same fold of the table, empty b changes nothing, a prefixed b replaces a, the non-verbatim results are a (or its prefix) + optional separator + b, the verbatim step never lets a . or .. through (Props/C08.v: C08_bytes, C08_histories, C08_empty, C08_prefixed, C08_nonverbatim_bytes, C08_verbatim_step_clean; closed under the global context). join_spec itself is evaluated on the implementation output of every explored pair and push history (oracle_c08, oracle_hist). The component-level reading of the non-verbatim branches is decided by the C10 oracle.', NOTE_CORR),
+    'C08': P(gen_c08, 'Proved in Coq for ALL pairs of byte strings: the model of WindowsEncoding::push equals the documented rule table Spec.join_spec (written over the grammar specification only), every history of pushes is the same fold of the table, empty b changes nothing, a prefixed b replaces a, the non-verbatim results are a (or its prefix) + optional separator + b, the verbatim step never lets a . or .. through (Props/C08.v: C08_bytes, C08_histories, C08_empty, C08_prefixed, C08_nonverbatim_bytes, C08_verbatim_step_clean; closed under the global context). join_spec itself is evaluated on the implementation output of every explored pair and push history (oracle_c08, oracle_hist). The component-level reading (a components followed by b components, a prefix followed by b for rooted b, bare drive without separator) is proved for all a without UNC/verbatim/device prefix (C08_comps_plain, C08_comps_disk, C08_comps_rooted_disk) and decided by the C10 oracle for the rest.', NOTE_CORR),
     'C09': P(gen_unary('c09'), 'parent / ancestors / pop: proved from the back-step lemma of the core parser; tied to the code for all families.', NOTE_CORR),
     'C10': P(gen_pairs('c10'), 'Proved in Coq (Props/C10.v): for any double-ended component iterator whose components are determined by their bytes, helpers::iter_after decides exactly the leading-run / trailing-run relation (C10_abstract_front); at Unix, for all byte strings: starts_with iff q components are a leading run of p, ends_with mirror image, strip_prefix succeeds iff starts_with and its remainder re-parses to the rest, equal paths start/end with each other, a joined with a relative b starts with a and stripping yields what b adds. Windows components are not determined by their bytes: known finding D7; D10 and D15 are the two further Windows classes; everything else is decided for Windows by oracle_c10 (component relations over the grammar spec, join-back, join consistency) on every explored pair.', NOTE_CORR),
     'C11': P(gen_unary('c11'), 'Proved in Coq for all Unix byte strings (Props/C11.v): the normalised path read back is the lexical fold Spec.nfold of the input components, it contains no . or .., has the same root/absoluteness, and normalising again returns the same bytes (C11_unix_fold, C11_unix_clean, C11_unix_root, C11_unix_idempotent); the model fold equals Spec.nfold for any component list (C11_fold_is_nfold). Windows: the same statements are evaluated by oracle_c11 on the implementation output of every explored well-formed path (C11_windows_partial: the byte-level re-push after a prefix is not proved).', NOTE_CORR),
-    'C12': P(gen_pairs('c12', second='names'), 'file_name / file_stem / extension / with_file_name: model tied to the code; decomposition theorems in Props/C12.v.', NOTE_CORR),
+    'C12': P(gen_pairs('c12', second='names'), 'Proved in Coq for all inputs (Props/C12.v): file_name is the last component when it is a normal name and absent otherwise (both encodings); stem, a dot and the extension reproduce the name when an extension exists and the stem is the whole name otherwise; the four documented cases of the split; Unix replacement by a single valid name n: the components are the old ones with the last replaced by n, so the file name is n and the parent is the old parent, and without a file name the result is the old path joined with n. The Windows replacement is decided by oracle_c12 on every explored (path, name) pair.', NOTE_CORR),
     'C13': P(gen_c13, 'Proved in Coq for all Unix buffers and extensions (Props/C13.v): without a file name the call returns false and leaves the buffer untouched; with a file name it returns true and the bytes are everything before the name, the old stem and (for a non-empty extension) a dot and the extension, whatever separators or . segments trailed the name; read back, the components are the old ones with the last replaced by the new name, so file name = stem[.ext] and the parent is unchanged, for every separator-free extension outside the known class D13 (refuted-witness lemma C13_d13_refuted); the truncation point is a UTF-8 character boundary and the result valid UTF-8 (no panic in the String twin). Windows and byte-equality with std::path::PathBuf::set_extension are decided on every explored case (oracle_c13, pair.c13 against real std).', NOTE_CORR),
-    'C14': P(gen_c14, 'UTF-8 families answered by the byte model on valid UTF-8 inputs; every &str re-validated in the harness; conversions succeed exactly on valid UTF-8 (utf8_valid defined in Coq).', NOTE_CORR),
+    'C14': P(gen_c14, 'Proved in Coq (Props/C14.v): utf8_valid is the RFC 3629 chain of steps; validity is preserved by concatenation and by cutting next to an ASCII byte; Unix push/extend keep buffers valid; file name, stem and extension of a valid Unix path are valid; the set_extension truncation point is a character boundary and its result valid (no String::truncate panic). The faithfulness half (same bytes and outcome as the byte API) is decided by running every UTF-8 family next to the byte family on every explored case (same.*), the harness re-validating every &str it receives; conversions succeed exactly on valid UTF-8 (c14c).', NOTE_CORR),
     'C15': P(gen_c15, 'Proved: derive selects Windows exactly when the bytes start with a backslash or the grammar specification finds a prefix (Props/C15.v C15_derive); the dispatch table regenerated from src/typed/** and src/platform.rs on every run satisfies forwards-to-same-method / re-wraps-same-variant (translator obligations). Every typed/platform family is diffed against the byte family of its encoding on every explored case, variant tags included.', NOTE_CORR),
-    'C16': P(gen_unary('c16', fam_filter=lambda f: f in ('u', 'w', 'u8', 'w8', 'tu', 'tw', 't8u', 't8w', 'tbu', 'tbw', 'tb8u', 'tb8w')), 'Encoding conversion: model of with_encoding(_checked) tied to the code in both directions and for UTF-8/typed forms; the property itself (same bytes to the own encoding, kinds and names kept, prefix dropped, rootedness, checked = unchecked and valid, failure on forbidden bytes) is evaluated over the specifications by oracle_c16 on every explored case; D9, D12, D14 are the known classes. No all-input theorem about the conversion is proved yet (C16 partial).', NOTE_CORR),
+    'C16': P(gen_unary('c16', fam_filter=lambda f: f in ('u', 'w', 'u8', 'w8', 'tu', 'tw', 't8u', 't8w', 'tbu', 'tbw', 'tb8u', 'tb8w')), 'Encoding conversion: model of with_encoding(_checked) tied to the code in both directions and for UTF-8/typed forms; the property itself (same bytes to the own encoding, kinds and names kept, prefix dropped, rootedness, checked = unchecked and valid, failure on forbidden bytes) is evaluated over the specifications by oracle_c16 on every explored case; D9, D12, D14 are the known classes. Proved for all inputs (Props/C16.v): same encoding = same bytes; a Unix path whose names are file names in both encodings converts to a Windows path with the same kinds and names; a prefix-free Windows path converts to a Unix path with the same kinds and names; the round trip is an equal path; the checked Unix->Windows conversion succeeds with exactly the unchecked result, which is valid, and fails whenever a name holds a byte Windows forbids; D9 D12 D14 as refuted-witness lemmas. Prefixed Windows sources and the Windows->Unix checked form are decided on explored cases only.', NOTE_CORR),
     'C17': P(gen_c17, 'Validity predicate vs the forbidden-byte tables (regenerated from the source), all 256 byte values in each position.', NOTE_CORR),
     'C18': P(gen_c18, 'Totality: fuel-sufficiency / strict-progress lemmas of the model loops; every operation run under catch_unwind and a watchdog on long inputs.', NOTE_CORR, impl_only_gen=gen_c18_impl_only, debug_build=True, oracle='nopanic'),
     'C19': P(gen_c19, 'Lossless construction/conversion: to_str / lossy / Display against utf8_valid and lossy defined in Coq; every conversion chain checked in the harness.', NOTE_CORR),
